@@ -28,6 +28,8 @@ func init() {
 			"external methods do not stash tainted arguments in their receiver for later retrieval",
 		},
 		Mutants: []Mutant{
+			{ID: "C11-password-prompt-unanchored", Desc: "the built-in password prompt pattern no longer has to end the line", Rule: "C11/password-prompt-anchored",
+				Edits: []Edit{{File: "channel/auth.go", Old: "(?im)(.*@.*)?password:\\s?$", New: "(?im)(.*@.*)?password:\\s*"}}},
 			{ID: "C11-passphrase-buffer-kept", Desc: "the ssh login loop keeps its buffer after typing the passphrase (typed again into an echoing session)", Rule: "C11/auth-reset",
 				Edits: []Edit{{File: "channel/auth.go", Old: "\t\t\tb = []byte{}\n\t\t}\n\t}\n}\n\n// AuthenticateSSH", New: "\t\t\tnb = []byte{}\n\t\t}\n\t}\n}\n\n// AuthenticateSSH"}}},
 			{ID: "C11-telnet-unredacted", Desc: "telnet password written without the redaction flag", Rule: "C11/T2",
